@@ -83,6 +83,8 @@ func FuzzHandlePacket(f *testing.F) {
 	addSeeds(f, false)
 	f.Fuzz(func(t *testing.T, data []byte) {
 		n := victim() // fresh state every iteration
+		// a digest naming hostile ids has been received before (state a later packet can hit)
+		n.State.ApplyDigest(gossip.VerifDigest{{ID: "n\xffw", Addr: "127.0.0.1:7005", Version: 1}, {ID: "", Addr: "x", Version: 2}})
 		before := n.State.LocalNode()
 		done := make(chan struct{})
 		go func() {
